@@ -363,7 +363,7 @@ theorem serverProcess_eq (s : Sess) (m : Msg) :
       Facts.opSearchResultReference, Facts.opExtendedRequest, Facts.opExtendedResponse, opIsBind,
       opIsSearch, srvState]
 
-def ProcResult.sess : ProcResult → Sess
+def procSess : ProcResult → Sess
   | .ok s => s
   | .protoErr s _ _ => s
   | .keyErr s => s
@@ -384,7 +384,7 @@ theorem processLoop_cons (s : Sess) (m : Msg) (ms : List Msg) :
           match serverProcess s m with
           | none => .protoErr s false false
           | some s1 => processLoop s1 ms := by
-  rw [processLoop]
+  rfl
 
 /-- the fields no incoming message touches -/
 def SameFrame (s s' : Sess) : Prop :=
@@ -416,9 +416,9 @@ theorem serverProcess_frame {s s' : Sess} {m : Msg} (h : serverProcess s m = som
     exact ⟨rfl, rfl, rfl, rfl, rfl⟩
   · simp at h
 
-theorem processLoop_frame (s : Sess) (ms : List Msg) : SameFrame s (processLoop s ms).sess := by
+theorem processLoop_frame (s : Sess) (ms : List Msg) : SameFrame s (procSess (processLoop s ms)) := by
   induction ms generalizing s with
-  | nil => simp [processLoop, ProcResult.sess, SameFrame.refl]
+  | nil => simp [processLoop, procSess, SameFrame.refl]
   | cons m ms ih =>
     rw [processLoop_cons]
     split
@@ -454,14 +454,14 @@ theorem recv_cases (d : Nat) (s : Sess) (chunk : Bytes) :
     cases hp : parseLoop s.regs d (s.residue ++ chunk).length (s.residue ++ chunk) with
     | error e =>
       left
-      exact ⟨hc, e, rfl, by simp [recv, hc, hp]⟩
+      exact ⟨hc, e, rfl, by simp only [recv, hc, if_false, hp]⟩
     | ok r =>
       right
       obtain ⟨ms, rest⟩ := r
       refine ⟨hc, ms, rest, rfl, ?_⟩
       cases hl : processLoop { s with residue := rest } ms with
-      | ok s2 => left; exact ⟨s2, rfl, by simp [recv, hc, hp, hl]⟩
-      | protoErr s2 u n => right; left; exact ⟨s2, u, n, rfl, by simp [recv, hc, hp, hl]⟩
-      | keyErr s2 => right; right; exact ⟨s2, rfl, by simp [recv, hc, hp, hl]⟩
+      | ok s2 => left; exact ⟨s2, rfl, by simp only [recv, hc, if_false, hp, hl]⟩
+      | protoErr s2 u n => right; left; exact ⟨s2, u, n, rfl, by simp only [recv, hc, if_false, hp, hl]⟩
+      | keyErr s2 => right; right; exact ⟨s2, rfl, by simp only [recv, hc, if_false, hp, hl]⟩
 
 end Verif.Proofs
